@@ -93,7 +93,7 @@ theorem grantOne_active (s s' : Q) (q : Nat) (h : grantOne s = some (s', q)) :
     · simp at h
       obtain ⟨h1, _⟩ := h
       subst h1
-      simp
+      simp [noteGrant]
 
 /-- with well-formed users `grantOne` fails only when nobody waits -/
 theorem grantOne_none (s : Q) (hw : WF s) (h : grantOne s = none) : s.users = [] := by
@@ -170,16 +170,20 @@ theorem next_loop_spec (s : Q) :
 /-- every op is either a direct update or ends in the grant loop -/
 theorem step_loop_cases (s : Q) (op : Op) :
     (∃ s0, step .loop s op = next .loop s0 ∧ s0.active = s.active - (if op = .release then 1 else 0)) ∨
-    (∃ q, step .loop s op = ({ s with order := s.order + 1, active := s.active + 1 }, [q]) ∧ s.active < s.cap ∧ op ≠ .release) ∨
+    (∃ q s1, step .loop s op = (s1, [q]) ∧ s1.active = s.active + 1 ∧ s1.cap = s.cap ∧ s1.users = s.users ∧
+        s.active < s.cap ∧ op ≠ .release) ∨
     (step .loop s op).2 = [] ∧ (step .loop s op).1.active = s.active ∧ op ≠ .release := by
   cases op with
   | acquire tok q =>
     by_cases hu : hasUser tok s.users = true
     · left; exact ⟨{ s with users := pushQuery tok q s.users }, by simp [step, hu], by simp⟩
     · by_cases hlt : s.active < s.cap
-      · right; left; exact ⟨q, by simp [step, hu, hlt], hlt, by simp⟩
+      · right; left
+        exact ⟨q, { noteGrant { s with order := s.order + 1 } tok with active := s.active + 1 },
+          by simp [step, hu, hlt], by simp [noteGrant], by simp [noteGrant], by simp [noteGrant], hlt, by simp⟩
       · left
-        exact ⟨{ s with order := s.order + 1, users := { token := tok, order := s.order, qs := [q] } :: s.users },
+        exact ⟨{ s with order := s.order + 1, users := { token := tok, order := s.order, qs := [q] } :: s.users,
+                        passed := s.passed.filter (fun p => p.1 != tok) },
           by simp [step, hu, hlt], by simp⟩
   | cancel q => right; right; simp [step]
   | release => left; exact ⟨{ s with active := s.active - 1 }, by simp [step], by simp⟩
@@ -190,22 +194,22 @@ theorem step_loop_cases (s : Q) (op : Op) :
 theorem grants_below_capacity (s : Q) (op : Op) :
     (step .loop s op).2 ≠ [] → (step .loop s op).1.active ≤ (step .loop s op).1.cap := by
   intro hg
-  rcases step_loop_cases s op with ⟨s0, h, _⟩ | ⟨q, h, hlt, _⟩ | ⟨h, _⟩
+  rcases step_loop_cases s op with ⟨s0, h, _⟩ | ⟨q, s1, h, ha, hc, _, hlt, _⟩ | ⟨h, _⟩
   · rw [h] at hg ⊢
     have ⟨_, i2, i3⟩ := next_loop_spec s0
     rw [i2]; exact i3 hg
-  · rw [h]; simp; omega
+  · rw [h]; simp only; omega
   · exact absurd h hg
 
 /-- C29 (queue, 3): capacity is never leaked — `active` moves by exactly (#grants − #releases), whatever the
     op, in particular a cancellation changes nothing. -/
 theorem no_leak (s : Q) (op : Op) :
     (step .loop s op).1.active = s.active + (step .loop s op).2.length - (if op = .release then 1 else 0) := by
-  rcases step_loop_cases s op with ⟨s0, h, h0⟩ | ⟨q, h, _, hne⟩ | ⟨h, h1, hne⟩
+  rcases step_loop_cases s op with ⟨s0, h, h0⟩ | ⟨q, s1, h, ha, _, _, _, hne⟩ | ⟨h, h1, hne⟩
   · rw [h]
     have ⟨i1, _, _⟩ := next_loop_spec s0
     rw [i1, h0]; omega
-  · rw [h]; simp [hne]
+  · rw [h]; simp [hne, ha]
   · rw [h1, h]; simp [hne]
 
 /-- lifted to schedules: after any schedule, active = #granted − #released -/
@@ -324,13 +328,16 @@ theorem work_conserving (s : Q) (op : Op) (hw : WF s) (hc : WC s) :
       rw [this]
       exact next_loop_wc _ (pushQuery_WF tok q s.users hw)
     · by_cases hlt : s.active < s.cap
-      · have : step .loop s (.acquire tok q) = ({ s with order := s.order + 1, active := s.active + 1 }, [q]) := by simp [step, hu, hlt]
-        rw [this]
-        refine ⟨?_, hw⟩
-        rcases hc with h | h
-        · exact Or.inl h
-        · exact absurd h (by omega)
-      · have : step .loop s (.acquire tok q) = next .loop { s with order := s.order + 1, users := { token := tok, order := s.order, qs := [q] } :: s.users } := by
+      · have h1 : (step .loop s (.acquire tok q)).1.users = s.users ∧ (step .loop s (.acquire tok q)).1.cap = s.cap ∧
+            (step .loop s (.acquire tok q)).1.active = s.active + 1 := by
+          simp [step, hu, hlt, noteGrant]
+        refine ⟨?_, ?_⟩
+        · rcases hc with h | h
+          · left; rw [h1.1]; exact h
+          · exact absurd h (by omega)
+        · intro u hu'; rw [h1.1] at hu'; exact hw u hu'
+      · have : step .loop s (.acquire tok q) = next .loop { s with order := s.order + 1, users := { token := tok, order := s.order, qs := [q] } :: s.users,
+                                                                   passed := s.passed.filter (fun p => p.1 != tok) } := by
           simp [step, hu, hlt]
         rw [this]
         apply next_loop_wc
@@ -360,6 +367,206 @@ theorem work_conserving_run : ∀ (ops : List Op) (s : Q), WF s → WC s →
     exact ih _ h2 h1
 
 example (c : Int) : WF (init c) ∧ WC (init c) := by simp [WF, WC, init]
+
+/-- ghost invariant: stamps of waiting users are below the global counter, and whenever `(v,t) ∈ passed`
+    (t was granted while v waits) every waiting user with token t carries a later stamp than v -/
+structure Inv0 (s : Q) : Prop where
+  wf : WF s
+  lt : ∀ u ∈ s.users, u.order < s.order
+  j : ∀ v ∈ s.users, ∀ t, (v.token, t) ∈ s.passed → ∀ w ∈ s.users, w.token = t → v.order < w.order
+  ok : s.bad = false
+
+theorem mem_pushQuery (tok q : Nat) (us : List User) (u' : User) (h : u' ∈ pushQuery tok q us) :
+    ∃ u ∈ us, u'.token = u.token ∧ u'.order = u.order := by
+  simp only [pushQuery, List.mem_map] at h
+  obtain ⟨u, hu, rfl⟩ := h
+  refine ⟨u, hu, ?_⟩
+  split <;> simp
+
+theorem mem_dropQuery (q : Nat) (us : List User) (u' : User) (h : u' ∈ dropQuery q us) :
+    ∃ u ∈ us, u'.token = u.token ∧ u'.order = u.order := by
+  simp only [dropQuery, List.mem_filter, List.mem_map] at h
+  obtain ⟨⟨u, hu, rfl⟩, _⟩ := h
+  exact ⟨u, hu, rfl, rfl⟩
+
+theorem overtakes_false (s : Q) (u : User) (hi : Inv0 s) (hm : minUser s.users = some u) :
+    overtakes s u.token = false := by
+  have hmem := minUser_mem _ _ hm
+  have hle := minUser_le _ _ hm
+  simp only [overtakes, Bool.eq_false_iff, ne_eq, List.any_eq_true, not_exists, not_and]
+  intro v hv hc
+  simp only [Bool.and_eq_true, bne_iff_ne, ne_eq, List.contains_iff_mem] at hc
+  have h1 := hi.j v hv u.token hc.2 u hmem rfl
+  have h2 := hle v hv
+  omega
+
+theorem grantOne_inv (s s' : Q) (q : Nat) (hi : Inv0 s) (h : grantOne s = some (s', q)) : Inv0 s' := by
+  have hwf' := grantOne_WF s s' q hi.wf h
+  unfold grantOne at h
+  split at h
+  · simp at h
+  · rename_i u hu
+    split at h
+    · simp at h
+    · rename_i q0 rest hq
+      simp only [Option.some.injEq, Prod.mk.injEq] at h
+      obtain ⟨h1, _⟩ := h
+      subst h1
+      have hov := overtakes_false s u hi hu
+      -- membership in the new user list
+      have hmem' : ∀ w, w ∈ (if rest.isEmpty = true then removeUser u.token s.users
+            else { u with order := s.order, qs := rest } :: removeUser u.token s.users) →
+            (w.token = u.token ∧ w.order = s.order) ∨ (w ∈ s.users ∧ w.token ≠ u.token) := by
+        intro w hw
+        split at hw
+        · right
+          simp only [removeUser, List.mem_filter, decide_eq_true_eq] at hw
+          exact hw
+        · rcases List.mem_cons.mp hw with h2 | h2
+          · left; subst h2; simp
+          · right
+            simp only [removeUser, List.mem_filter, decide_eq_true_eq] at h2
+            exact h2
+      refine ⟨hwf', ?_, ?_, ?_⟩
+      · intro w hw
+        simp only at hw
+        rcases hmem' w hw with ⟨_, ho⟩ | ⟨hin, _⟩
+        · simp only; omega
+        · have := hi.lt w hin; simp only; omega
+      · intro v hv t hp w hw hwt
+        simp only [noteGrant, passedAfter] at hp hv hw
+        rcases List.mem_append.mp hp with hp1 | hp2
+        · -- old pair
+          simp only [List.mem_filter, bne_iff_ne, ne_eq] at hp1
+          rcases hmem' v hv with ⟨hvt, _⟩ | ⟨hvin, hvne⟩
+          · exact absurd hvt hp1.2
+          · rcases hmem' w hw with ⟨_, hwo⟩ | ⟨hwin, _⟩
+            · have := hi.lt v hvin; omega
+            · exact hi.j v hvin t hp1.1 w hwin hwt
+        · -- new pair (v, u.token)
+          simp only [List.mem_map, List.mem_filter, bne_iff_ne, ne_eq, Prod.mk.injEq] at hp2
+          obtain ⟨x, ⟨hxin, hxne⟩, hxt, htu⟩ := hp2
+          subst htu
+          rcases hmem' v hv with ⟨hvt, _⟩ | ⟨hvin, hvne⟩
+          · rw [hvt] at hxt; exact absurd hxt hxne
+          · rcases hmem' w hw with ⟨_, hwo⟩ | ⟨_, hwne⟩
+            · have := hi.lt v hvin; omega
+            · exact absurd hwt hwne
+      · simp [noteGrant, hov, hi.ok]
+
+theorem drain_inv : ∀ (fuel : Nat) (s : Q), Inv0 s → Inv0 (drain fuel s).1 := by
+  intro fuel
+  induction fuel with
+  | zero => intro s hi; simpa [drain] using hi
+  | succ n ih =>
+    intro s hi
+    unfold drain
+    split
+    · split
+      · exact hi
+      · rename_i s' q hg
+        exact ih s' (grantOne_inv s s' q hi hg)
+    · exact hi
+
+theorem next_loop_inv (s : Q) (hi : Inv0 s) : Inv0 (next .loop s).1 := by
+  simp only [next]; exact drain_inv _ s hi
+
+theorem step_inv (s : Q) (op : Op) (hi : Inv0 s) (hc : WC s) : Inv0 (step .loop s op).1 := by
+  cases op with
+  | acquire tok q =>
+    by_cases hu : hasUser tok s.users = true
+    · have : step .loop s (.acquire tok q) = next .loop { s with users := pushQuery tok q s.users } := by simp [step, hu]
+      rw [this]
+      apply next_loop_inv
+      refine ⟨pushQuery_WF tok q s.users hi.wf, ?_, ?_, hi.ok⟩
+      · intro w hw
+        obtain ⟨u, hu', _, ho⟩ := mem_pushQuery tok q s.users w hw
+        have := hi.lt u hu'; simp only; omega
+      · intro v hv t hp w hw hwt
+        obtain ⟨v0, hv0, hvt, hvo⟩ := mem_pushQuery tok q s.users v hv
+        obtain ⟨w0, hw0, hwt0, hwo⟩ := mem_pushQuery tok q s.users w hw
+        simp only at hp
+        rw [hvt] at hp
+        have := hi.j v0 hv0 t hp w0 hw0 (by rw [← hwt0]; exact hwt)
+        omega
+    · by_cases hlt : s.active < s.cap
+      · -- fast path: nobody can be waiting (work conservation)
+        have hempty : s.users = [] := by
+          rcases hc with h | h
+          · exact h
+          · exact absurd h (by omega)
+        have h1 : (step .loop s (.acquire tok q)).1.users = [] ∧ (step .loop s (.acquire tok q)).1.bad = s.bad := by
+          have hu' : hasUser tok s.users = false := by simpa using hu
+          simp only [step, hu', hlt]
+          simp [noteGrant, overtakes, hempty]
+        refine ⟨?_, ?_, ?_, ?_⟩
+        · intro u hu'; rw [h1.1] at hu'; simp at hu'
+        · intro u hu'; rw [h1.1] at hu'; simp at hu'
+        · intro v hv; rw [h1.1] at hv; simp at hv
+        · rw [h1.2]; exact hi.ok
+      · have : step .loop s (.acquire tok q) = next .loop { s with order := s.order + 1, users := { token := tok, order := s.order, qs := [q] } :: s.users,
+                                                                   passed := s.passed.filter (fun p => p.1 != tok) } := by
+          simp [step, hu, hlt]
+        rw [this]
+        apply next_loop_inv
+        refine ⟨?_, ?_, ?_, hi.ok⟩
+        · intro u hu'
+          rcases List.mem_cons.mp hu' with h | h
+          · subst h; simp
+          · exact hi.wf u h
+        · intro w hw
+          rcases List.mem_cons.mp hw with h | h
+          · subst h; simp
+          · have := hi.lt w h; simp only; omega
+        · intro v hv t hp w hw hwt
+          simp only [List.mem_filter, bne_iff_ne, ne_eq] at hp
+          rcases List.mem_cons.mp hv with h | h
+          · subst h; exact absurd rfl hp.2
+          · rcases List.mem_cons.mp hw with h2 | h2
+            · subst h2; have := hi.lt v h; simp only; omega
+            · exact hi.j v h t hp.1 w h2 hwt
+  | cancel q =>
+    simp only [step]
+    refine ⟨dropQuery_WF q s.users, ?_, ?_, hi.ok⟩
+    · intro w hw
+      obtain ⟨u, hu', _, ho⟩ := mem_dropQuery q s.users w hw
+      have := hi.lt u hu'; simp only; omega
+    · intro v hv t hp w hw hwt
+      obtain ⟨v0, hv0, hvt, hvo⟩ := mem_dropQuery q s.users v hv
+      obtain ⟨w0, hw0, hwt0, hwo⟩ := mem_dropQuery q s.users w hw
+      simp only at hp
+      rw [hvt] at hp
+      have := hi.j v0 hv0 t hp w0 hw0 (by rw [← hwt0]; exact hwt)
+      omega
+  | release =>
+    simp only [step]
+    exact next_loop_inv _ ⟨hi.wf, hi.lt, hi.j, hi.ok⟩
+  | adjust c =>
+    simp only [step]
+    exact next_loop_inv _ ⟨hi.wf, hi.lt, hi.j, hi.ok⟩
+
+/-- C29 (queue, 4): no overtaking. `bad` is the ghost flag raised by a grant to a user `u` made while another
+    user `v` is waiting such that `u` has already been granted since `v` started waiting (or was last granted).
+    For every schedule from the empty queue the flag is never raised: no user is granted twice while another
+    user that was already waiting is still waiting. -/
+theorem no_overtake_run : ∀ (ops : List Op) (s : Q), Inv0 s → WC s →
+    (run .loop s ops).1.bad = false ∧ Inv0 (run .loop s ops).1 := by
+  intro ops
+  induction ops with
+  | nil => intro s hi _; exact ⟨hi.ok, hi⟩
+  | cons op ops ih =>
+    intro s hi hc
+    simp only [run]
+    exact ih _ (step_inv s op hi hc) (work_conserving s op hi.wf hc).1
+
+theorem no_overtake (c : Int) (ops : List Op) : (run .loop (init c) ops).1.bad = false :=
+  (no_overtake_run ops (init c) ⟨by simp [WF, init], by simp [init], by simp [init], rfl⟩ (by simp [WC, init])).1
+
+/-- the ghost monitor is not vacuous: the pre-fix code raises it (capacity raised, nobody woken, then a fresh
+    user takes the fast path past two parked users and is granted again while they still wait) -/
+example :
+    (run .eqOnce (init 1) [.acquire 1 1, .acquire 2 2, .adjust 3, .acquire 3 3, .acquire 3 4]).1.bad = true := by decide
+
 
 /-! The pre-fix code (`Variant.eqOnce`) violates (1) and "grants a waiting query whenever capacity frees";
     these witnesses are what the check replayed on the real `Queue` before the `fix:` commit. -/
